@@ -169,7 +169,7 @@ def spaces(tier, variant, seed):
         pats = alias_patterns(fn)
         grp = pats[pi_]
         nin = sum(1 for k, r in fn.params if (k in "ZQF" and r != "o") or k not in "ZQF")
-        small = nin >= 3 or (quick and nin >= 3)
+        small = (nin >= 3) if quick else ("big" if nin <= 2 else False)
         doms = argsets(fn, small)
         for args in itertools.product(*doms):
             if not consistent(fn, grp, args):
